@@ -98,7 +98,7 @@ Print Assumptions C15_unknown_option_rejected.
 (* Clause 3.  With fetchers configured, CheckTx and ReCheckTx accept only
    transactions with an authorised signer — on every path (the Ethereum chain
    has carried the AuthenticatedMempoolDecorator since the fix commit
-   77ff26c0d; before it this statement was refuted by an Ethereum tx). *)
+   6d7d5e553; before it this statement was refuted by an Ethereum tx). *)
 Theorem C15_mempool_gate : forall cfg md t o p,
   c_fetchers cfg = true -> (md = CheckTx \/ md = ReCheckTx) ->
   ante cfg md t o = Accept p ->
